@@ -158,7 +158,7 @@ func (r *runner) tripleRow(T []*ent, ai int, A *ent) {
 			}
 			if nontrivial {
 				c.DistinctH(1<<62 | uint64(A.idx)<<40 | uint64(B.idx)<<20 | uint64(C.idx))
-				if c.WantSample() && ai != bi && bi != ci && ai != ci && (ai+bi+ci)%11 == 0 {
+				if ai != bi && bi != ci && ai != ci && (ai+bi+ci)%11 == 0 && r.wantSample("triple") {
 					c.Sample(map[string]any{"phase": "triple", "a": desc(A), "b": desc(B), "c": desc(C),
 						"a==b": ab.eq.String(), "b==c": bc.eq.String(), "a==c": ac.eq.String(), "a<b": ab.lt.String(), "b<c": bc.lt.String(), "a<c": ac.lt.String()})
 				}
